@@ -469,6 +469,155 @@ Definition set_name_loc (t : nat) (n : name) (s : state) : state :=
       with_names s1 (correct_names (names s1))
   end.
 
+(* ------------------------------------------------------------------ selection-aware editors *)
+(* getSelections Db.cpp:3390: the selection column (empty when there is none) *)
+Definition selections (s : state) : list val :=
+  match loc s SEL with
+  | [] => []
+  | _ => match col_of_loc s SEL 0 with
+         | Some c => if c <? ncol s then map (fun e => nth e (nth c (arr s) []) None) (seq 0 (nech s)) else []
+         | None => []
+         end
+  end.
+Definition is_one (v : val) : bool := match v with Some 1%Z => true | _ => false end.
+Definition truthy (v : val) : bool := match v with Some 0%Z => false | _ => true end.
+(* setColumnByUIDOldStyle(tab, iuid, useSel) Db.cpp:1499: the selection is read once, before the loop; masked
+   samples are left untouched and do not consume a value of tab *)
+Fixpoint set_col_uid_loop (es : list nat) (lec : nat) (sel tab : list val) (u : Z) (s : state) : state :=
+  match es with
+  | [] => s
+  | e :: r =>
+      let defined := match sel with [] => true | _ => is_one (nth e sel None) end in
+      if defined then set_col_uid_loop r (S lec) sel tab u (set_cell (Z.of_nat e) u (nth lec tab None) s)
+      else set_col_uid_loop r lec sel tab u s
+  end.
+Definition set_column_uid_sel (u : Z) (tab : list val) (useSel : bool) (s : state) : state :=
+  set_col_uid_loop (seq 0 (nech s)) 0 (if useSel then selections s else []) tab u s.
+(* setValueByColIdx Db.cpp:2346 *)
+Definition set_cell_col (e : Z) (c : Z) (v : val) (s : state) : state :=
+  match zidx c (ncol s), zidx e (nech s) with
+  | Some c', Some e' => with_arr s (set_nth c' (set_nth e' v (nth c' (arr s) [])) (arr s))
+  | _, _ => s
+  end.
+(* setColumnByColIdxOldStyle Db.cpp:1440: masked samples receive TEST *)
+Fixpoint set_col_col_loop (es : list nat) (lec : nat) (sel tab : list val) (c : Z) (s : state) : state :=
+  match es with
+  | [] => s
+  | e :: r =>
+      let defined := match sel with [] => true | _ => is_one (nth e sel None) end in
+      if defined then set_col_col_loop r (S lec) sel tab c (set_cell_col (Z.of_nat e) c (nth lec tab None) s)
+      else set_col_col_loop r lec sel tab c (set_cell_col (Z.of_nat e) c None s)
+  end.
+Definition set_column_col (c : Z) (tab : list val) (useSel : bool) (s : state) : state :=
+  match zidx c (ncol s) with
+  | None => s
+  | Some _ => set_col_col_loop (seq 0 (nech s)) 0 (if useSel then selections s else []) tab c s
+  end.
+(* setFromLocator Db.cpp:956 *)
+Definition set_from_loc (t : nat) (e : Z) (k : nat) (v : val) (s : state) : state :=
+  match zidx e (nech s), col_of_loc s t k with
+  | Some _, Some c => set_cell_col e (Z.of_nat c) v s
+  | _, _ => s
+  end.
+(* deleteSamples Db.cpp:1804: descending order, stops at the first refused deletion *)
+Fixpoint del_samples_loop (es : list Z) (s : state) : state :=
+  match es with
+  | [] => s
+  | e :: r => match zidx e (nech s) with
+              | Some _ => del_samples_loop r (del_sample e s)
+              | None => s
+              end
+  end.
+Definition del_samples (es : list Z) (s : state) : state := del_samples_loop (sort_desc es) s.
+
+(* getSampleNumber(useSel) on the state (active_number is defined with the getters below) *)
+Definition sel_value0 (s : state) (e : nat) : val :=
+  match col_of_loc s SEL 0 with
+  | Some c => if c <? ncol s then nth e (nth c (arr s) []) None else None
+  | None => None
+  end.
+Definition n_active (s : state) : nat :=
+  match loc s SEL with
+  | [] => nech s
+  | _ => length (filter (fun e => match sel_value0 s e with None => false | Some z => negb (z =? 0)%Z end)
+                        (seq 0 (nech s)))
+  end.
+(* addColumns(tab, radix, type, index, useSel, valinit, nvar) Db.cpp:1404, general form (addColumnsByVVD, setColumn,
+   the addSelection family).  The library divides by getSampleNumber(useSel): with useSel and no active sample it
+   crashes (directed test of checks/C07.py); here the call is then a no-op *)
+Definition add_cols_gen (tab : list val) (radix : name) (t : loctype) (k : Z) (useSel : bool) (valinit : val)
+                        (nvar0 : nat) (s : state) : state :=
+  match tab with
+  | [] => s
+  | _ =>
+      let s0 := set_nech0 (Nat.div (length tab) nvar0) s in
+      let n := if useSel then n_active s0 else nech s0 in
+      if Nat.eqb n 0 then s0 else
+      let nvar := Nat.div (length tab) n in
+      if negb (Nat.eqb (length tab) (nvar * n)) then s0
+      else
+        let iuid := uidmax s0 in
+        let s1 := add_cols (Z.of_nat nvar) valinit radix t k 0 s0 in
+        fold_left (fun s ic => set_column_uid_sel (Z.of_nat (iuid + fst ic)) (snd ic) useSel s)
+                  (combine (seq 0 nvar) (chunk n nvar tab)) s1
+  end.
+(* addColumnsByVVD Db.cpp:1370: nvar = number of vectors, valinit = TEST *)
+Definition add_cols_vvd (tabs : list (list val)) (radix : name) (t : loctype) (k : Z) (useSel : bool)
+                        (s : state) : state :=
+  add_cols_gen (concat tabs) radix t k useSel None (length tabs) s.
+(* setColumn(tab, name, type, index, useSel) Db.cpp:1535 *)
+Definition set_column_name (tab : list val) (p : name) (t : loctype) (k : Z) (useSel : bool) (s : state) : state :=
+  match ids_name s p true with
+  | [] => add_cols_gen tab p t k useSel (Some 0%Z) 1 s
+  | u :: _ => set_column_uid_sel (Z.of_nat u) tab useSel s
+  end.
+(* combineSelection Db.cpp:5008: 0 "set", 1 "not", 2 "or", 3 "and", 4 "xor", anything else: message, unchanged *)
+Definition b2v (b : bool) : val := Some (if b then 1%Z else 0%Z).
+Definition combine_sel (sel : list val) (cmb : Z) (s : state) : list val :=
+  match sel with
+  | [] => sel
+  | _ =>
+      if (cmb =? 0)%Z then sel
+      else if (cmb =? 1)%Z then map (fun v => b2v (negb (truthy v))) sel
+      else if (2 <=? cmb)%Z && (cmb <=? 4)%Z then
+        let old := match col_of_loc s SEL 0 with
+                   | Some c => if c <? ncol s then map (fun e => nth e (nth c (arr s) []) None) (seq 0 (nech s)) else []
+                   | None => []
+                   end in
+        match old with
+        | [] => sel
+        | _ => map (fun p => let a := truthy (fst p) in
+                             if (cmb =? 2)%Z then b2v (a || truthy (snd p))
+                             else if (cmb =? 3)%Z then b2v (a && truthy (snd p))
+                             else b2v (negb (match snd p with Some z => (z =? (if a then 1 else 0))%Z | None => false end)))
+                   (combine sel (old ++ repeat None (length sel)))
+        end
+      else sel
+  end.
+Definition add_sel_common (sel : list val) (nm : name) (cmb : Z) (s : state) : state :=
+  add_cols_gen (combine_sel sel cmb s) nm (Some SEL) 0 false (Some 0%Z) 1 s.
+(* addSelection(tab, name, combine) Db.cpp:1630 *)
+Definition add_selection_c (tab : list val) (nm : name) (cmb : Z) (s : state) : state :=
+  let n := nech s in
+  match tab with
+  | [] => add_sel_common (repeat (Some 1%Z) n) nm cmb s
+  | _ => if negb (Nat.eqb n (length tab)) then s
+         else add_sel_common (map (fun v => b2v (truthy v)) tab) nm cmb s
+  end.
+(* addSelectionByRanks Db.cpp:1673 (ranks outside [0, nech) make the library write out of bounds: excluded) *)
+Definition add_selection_ranks (ranks : list nat) (nm : name) (cmb : Z) (s : state) : state :=
+  add_sel_common (map (fun e => b2v (existsb (Nat.eqb e) ranks)) (seq 0 (nech s))) nm cmb s.
+(* addSelectionByLimit Db.cpp:1698 with no limit (has_lim = false) or one interval [lo, hi) (None = unbounded) *)
+Definition inside_lim (lo hi : val) (z : Z) : bool :=
+  (match lo with Some a => (a <=? z)%Z | None => true end) && (match hi with Some b => (z <? b)%Z | None => true end).
+Definition add_selection_limit (testvar : name) (has_lim : bool) (lo hi : val) (nm : name) (cmb : Z)
+                               (s : state) : state :=
+  let value e := match uid_of_name s testvar with Some u => get_cell s e u | None => None end in
+  add_sel_common (map (fun e => match value e with
+                                | None => Some 0%Z
+                                | Some z => b2v (negb has_lim || inside_lim lo hi z)
+                                end) (seq 0 (nech s))) nm cmb s.
+
 (* ------------------------------------------------------------------ operations *)
 Inductive op :=
 | AddCols (nadd : Z) (v : val) (radix : name) (t : loctype) (k : Z) (nechInit : nat)
@@ -500,7 +649,17 @@ Inductive op :=
 | DelNames (ps : list name)
 | DelUIDRange (i_del n_del : Z)
 | SetNameList (l : list name) (n : name)
-| SetNameLoc (t : nat) (n : name).
+| SetNameLoc (t : nat) (n : name)
+| DelSamples (es : list Z)
+| SetColumnUID (u : Z) (tab : list val) (useSel : bool)
+| SetColumnCol (c : Z) (tab : list val) (useSel : bool)
+| SetColumnName (tab : list val) (p : name) (t : loctype) (k : Z) (useSel : bool)
+| SetValueCol (e c : Z) (v : val)
+| SetFromLoc (t : nat) (e : Z) (k : nat) (v : val)
+| AddColsVVD (tabs : list (list val)) (radix : name) (t : loctype) (k : Z) (useSel : bool)
+| AddSelC (tab : list val) (nm : name) (cmb : Z)
+| AddSelRanks (ranks : list nat) (nm : name) (cmb : Z)
+| AddSelLimit (testvar : name) (has_lim : bool) (lo hi : val) (nm : name) (cmb : Z).
 
 Definition step (s : state) (o : op) : state :=
   match o with
@@ -534,8 +693,195 @@ Definition step (s : state) (o : op) : state :=
   | DelUIDRange i n => del_uid_range i n s
   | SetNameList l n => set_name_list l n s
   | SetNameLoc t n => set_name_loc t n s
+  | DelSamples es => del_samples es s
+  | SetColumnUID u tab us => set_column_uid_sel u tab us s
+  | SetColumnCol c tab us => set_column_col c tab us s
+  | SetColumnName tab p t k us => set_column_name tab p t k us s
+  | SetValueCol e c v => set_cell_col e c v s
+  | SetFromLoc t e k v => set_from_loc t e k v s
+  | AddColsVVD tabs radix t k us => add_cols_vvd tabs radix t k us s
+  | AddSelC tab nm cmb => add_selection_c tab nm cmb s
+  | AddSelRanks ranks nm cmb => add_selection_ranks ranks nm cmb s
+  | AddSelLimit tv hl lo hi nm cmb => add_selection_limit tv hl lo hi nm cmb s
   end.
 Definition run_ops (ops : list op) : state := fold_left step ops init.
+
+(* ------------------------------------------------------------------ creators
+   Every creator of the library is a fixed sequence of calls of the editors above applied to the state left by
+   resetDims; it is modelled as that sequence (a script of [op]), so that the invariant of the created Db follows
+   from C07_step. *)
+(* Db::resetDims Db.cpp:512 on a fresh object: identity uid table, names New-1..New-n, no role, zero-filled array *)
+Definition NEW : name := [78; 101; 119]%Z.
+Definition reset_dims (nc ne : nat) : state :=
+  mkState nc ne (repeat (repeat (Some 0%Z) ne) nc) (map (fun c => Some c) (seq 0 nc)) (gen_names NEW nc) (fun _ => []).
+Definition RANK : name := [114; 97; 110; 107]%Z.
+Definition XN : name := [120%Z].
+Definition ABS : val := Some 999999999%Z.      (* a value the model does not predict (random draw, interpolation) *)
+(* _createRank(0) Db.cpp:4379 *)
+Definition rank_script (ne : nat) : list op :=
+  map (fun e => SetArray (Z.of_nat e) 0 (Some (Z.of_nat (S e)))) (seq 0 ne) ++ [SetNameCol 0 RANK].
+(* _defineDefaultNames(shift, names) Db.cpp:4405 *)
+Definition names_script (shift n : nat) (names : list name) : list op :=
+  map (fun i => SetNameCol (Z.of_nat (i + shift))
+                           (match names with [] => incr_version NEW (S i) DOT | _ => nth i names [] end)) (seq 0 n).
+(* locatorIdentify PtrGeos.cpp on the canonical strings <keyword><number>: (type, number or -1 when absent) *)
+Definition unique_loc (t : nat) : bool :=
+  existsb (Nat.eqb t) [8; 9; 10; 11; 13; 14; 15; 16; 17; 19; 25].
+Definition locstr := (loctype * Z)%type.
+Definition locs_script (shift n : nat) (locs : list locstr) : list op :=
+  match locs with
+  | [] => []
+  | _ => flat_map (fun i => match nth i locs (None, (-1)%Z) with
+                            | (None, _) => [SetLocUID (Z.of_nat (i + shift)) None 0 false]
+                            | (Some t, num) =>
+                                if unique_loc t && (1 <? num)%Z then []
+                                else [SetLocUID (Z.of_nat (i + shift)) (Some t) (Z.max (num - 1) 0) false]
+                            end) (seq 0 n)
+  end.
+(* _loadData Db.cpp:4329 *)
+Definition load_script (tab : list val) (names : list name) (locs : list locstr) (bycol : bool)
+                       (shift nc ne : nat) : list op :=
+  match tab with
+  | [] => []
+  | _ =>
+      if Nat.eqb nc 0 || Nat.eqb ne 0 || negb (Nat.eqb (Nat.modulo (length tab) ne) 0) then []
+      else
+        let ntab := Nat.div (length tab) ne in
+        flat_map (fun icol => map (fun e => SetValueCol (Z.of_nat e) (Z.of_nat (icol + shift))
+                                              (nth (if bycol then icol * ne + e else icol + ntab * e) tab None))
+                                  (seq 0 ne)) (seq 0 ntab)
+        ++ names_script shift (nc - shift) names ++ locs_script shift (nc - shift) locs
+  end.
+Definition run_script (sc : list op) (s : state) : state := fold_left step sc s.
+Definition b2n (b : bool) : nat := if b then 1 else 0.
+(* Db::createFromSamples / resetFromSamples Db.cpp:86 *)
+Definition samples_dims (ne : nat) (tab : list val) (rank : bool) : nat :=
+  (match tab with [] => 0 | _ => Nat.div (length tab) ne end) + b2n rank.
+Definition samples_script (ne : nat) (bycol : bool) (tab : list val) (names : list name) (locs : list locstr)
+                          (rank : bool) : list op :=
+  (if rank then rank_script ne else []) ++ load_script tab names locs bycol (b2n rank) (samples_dims ne tab rank) ne.
+Definition create_samples ne bycol tab names locs rank : state :=
+  run_script (samples_script ne bycol tab names locs rank) (reset_dims (samples_dims ne tab rank) ne).
+(* Db::createFromBox -> db_point_init (dbtools.cpp:1986), flag_exact: random coordinates, then names x-i and roles *)
+Definition box_script (ne ndim : nat) (rank : bool) : list op :=
+  samples_script ne false (repeat ABS (ne * ndim)) [] [] rank
+  ++ flat_map (fun idim => [SetNameUID (Z.of_nat (idim + b2n rank)) (incr_version XN (S idim) DASH);
+                            SetLocUID (Z.of_nat (idim + b2n rank)) (Some 0) (Z.of_nat idim) false]) (seq 0 ndim).
+Definition create_box ne ndim rank : state :=
+  run_script (box_script ne ndim rank) (reset_dims (samples_dims ne (repeat ABS (ne * ndim)) rank) ne).
+(* Db::createFillRandom Db.cpp:5302 (selRatio and heteroRatio in {0, 1}, ncode in {0, 1}: deterministic masks) *)
+Definition fill_script (ndat ndim nvar nfex : nat) (code varm sel : bool) (hetero : list bool) (rank : bool) : list op :=
+  let absv := repeat ABS ndat in
+  (if rank then [AddColsTab (map (fun e => Some (Z.of_nat (S e))) (seq 0 ndat)) RANK None 0] else [])
+  ++ [AddColsVVD (repeat absv ndim) XN (Some 0) 0 false]
+  ++ (if varm then [AddColsVVD (repeat absv nvar) [118%Z] (Some 2) 0 false] else [])
+  ++ (if 0 <? nfex then [AddColsVVD (repeat absv nfex) [102%Z] (Some 3) 0 false] else [])
+  ++ (if sel then [AddColsTab (repeat (Some 0%Z) ndat) [115; 101; 108]%Z (Some SEL) 0] else [])
+  ++ [AddColsVVD (map (fun i => if Nat.eqb (length hetero) nvar && nth i hetero false then repeat None ndat else absv)
+                      (seq 0 nvar)) [122%Z] (Some 1) 0 false]
+  ++ (if code then [AddColsTab (repeat (Some 0%Z) ndat) [99; 111; 100; 101]%Z (Some 9) 0] else []).
+Definition create_fill ndat ndim nvar nfex code varm sel hetero rank : state :=
+  run_script (fill_script ndat ndim nvar nfex code varm sel hetero rank) init.
+(* DbGrid::create / reset DbGrid.cpp:98 (no rotation, integer mesh and origin): the table side *)
+Definition grid_nech (nx : list nat) : nat := fold_left Nat.mul nx 1.
+Fixpoint grid_index (nx : list nat) (e : nat) : list nat :=
+  match nx with
+  | [] => []
+  | n :: r => Nat.modulo e n :: grid_index r (Nat.div e n)
+  end.
+Definition grid_coord (nx : list nat) (dx x0 : list Z) (e idim : nat) : Z :=
+  (nth idim x0 0 + nth idim dx 0 * Z.of_nat (nth idim (grid_index nx e) 0%nat))%Z.
+Definition coords_script (nx : list nat) (dx x0 : list Z) (icol0 : nat) : list op :=
+  let ndim := length nx in
+  map (fun idim => SetNameCol (Z.of_nat (icol0 + idim)) (XN ++ dec (S idim))) (seq 0 ndim)
+  ++ [SetLocsRange (Z.of_nat ndim) (Z.of_nat icol0) (Some 0) 0 false]
+  ++ flat_map (fun e => map (fun idim => SetArray (Z.of_nat e) (Z.of_nat (icol0 + idim))
+                                                   (Some (grid_coord nx dx x0 e idim))) (seq 0 ndim))
+              (seq 0 (grid_nech nx)).
+Definition grid_dims (nx : list nat) (tab : list val) (rank coords : bool) : nat :=
+  b2n rank + (if coords then length nx else 0)
+  + (match tab with [] => 0 | _ => Nat.div (length tab) (grid_nech nx) end).
+Definition grid_script (nx : list nat) (dx x0 : list Z) (bycol : bool) (tab : list val) (names : list name)
+                       (locs : list locstr) (rank coords : bool) : list op :=
+  let ne := grid_nech nx in
+  let number := b2n rank + (if coords then length nx else 0) in
+  let nc := grid_dims nx tab rank coords in
+  load_script tab names locs bycol number nc ne
+  ++ (if rank then rank_script ne else [])
+  ++ (if coords then coords_script nx dx x0 (b2n rank) else [])
+  ++ names_script number (nc - number) names
+  ++ (if coords then SetLocsRange (Z.of_nat (length nx)) (Z.of_nat (b2n rank)) (Some 0) 0 false
+                     :: locs_script number (nc - number) locs else []).
+Definition create_grid nx dx x0 bycol tab names locs rank coords : state :=
+  run_script (grid_script nx dx x0 bycol tab names locs rank coords)
+             (reset_dims (grid_dims nx tab rank coords) (grid_nech nx)).
+(* DbGrid::createSubGrid DbGrid.cpp:1495: the variables other than "rank" and those whose name starts with x are
+   copied (no role), limits = (first node, last node + 1) per dimension *)
+Definition excluded_name (n : name) : bool :=
+  (match n with c :: _ => (c =? 120)%Z || (c =? 88)%Z | [] => false end)
+  || name_eqb (map (fun c => if (97 <=? c)%Z && (c <=? 122)%Z then (c - 32)%Z else c) n) [82; 65; 78; 75]%Z.
+Fixpoint grid_rank (nx : list nat) (idx : list nat) : nat :=
+  match nx, idx with
+  | n :: r, i :: ir => i + n * grid_rank r ir
+  | _, _ => 0
+  end.
+Definition subgrid_script (s : state) (nx : list nat) (dx x0 : list Z) (lims : list (nat * nat)) (coords : bool)
+  : list op :=
+  let nxo := map (fun l => snd l - fst l) lims in
+  let x0o := map (fun i => (nth i x0 0 + nth i dx 0 * Z.of_nat (fst (nth i lims (0%nat, 0%nat))))%Z) (seq 0 (length nx)) in
+  let kept := filter (fun n => negb (excluded_name n)) (names s) in
+  let uin := ids_names s kept in
+  let base := b2n true + (if coords then length nx else 0) in
+  grid_script nxo dx x0o false [] [] [] true coords
+  ++ map (fun n => AddCols 1 None n None 0 0) kept
+  ++ flat_map (fun igout =>
+        let igin := grid_rank nx (map (fun p => fst p + fst (snd p)) (combine (grid_index nxo igout) lims)) in
+        map (fun iv => SetArray (Z.of_nat igout) (Z.of_nat (base + iv)) (get_cell s igin (nth iv uin 0)))
+            (seq 0 (length kept)))
+      (seq 0 (grid_nech nxo)).
+Definition create_subgrid (s : state) nx dx x0 lims coords : state :=
+  let nxo := map (fun l => snd l - fst l) lims in
+  run_script (subgrid_script s nx dx x0 lims coords) (reset_dims (grid_dims nxo [] true coords) (grid_nech nxo)).
+
+(* ------------------------------------------------------------------ commands: editors on a Db or a DbGrid, creators *)
+(* DbGrid::mayChangeSampleNumber() is false: addSamples / deleteSample(s) are refused *)
+Definition is_sample_edit (o : op) : bool :=
+  match o with AddSamples _ _ | DelSample _ | DelSamples _ => true | _ => false end.
+Definition stepg (grid : bool) (s : state) (o : op) : state :=
+  if grid && is_sample_edit o then s else step s o.
+Inductive cmd :=
+| Do (o : op)
+| NewSamples (ne : nat) (bycol : bool) (tab : list val) (names : list name) (locs : list locstr) (rank : bool)
+| NewBox (ne ndim : nat) (rank : bool)
+| NewFill (ndat ndim nvar nfex : nat) (code varm sel : bool) (hetero : list bool) (rank : bool)
+| NewGrid (nx : list nat) (dx x0 : list Z) (bycol : bool) (tab : list val) (names : list name)
+          (locs : list locstr) (rank coords : bool)
+| SubGrid (nx : list nat) (dx x0 : list Z) (lims : list (nat * nat)) (coords : bool).
+Definition gstate := (bool * state)%type.
+(* the script a creator runs, and the state it starts from *)
+Definition cmd_script (s : state) (c : cmd) : list op * state :=
+  match c with
+  | Do o => ([o], s)
+  | NewSamples ne bycol tab names locs rank =>
+      (samples_script ne bycol tab names locs rank, reset_dims (samples_dims ne tab rank) ne)
+  | NewBox ne ndim rank => (box_script ne ndim rank, reset_dims (samples_dims ne (repeat ABS (ne * ndim)) rank) ne)
+  | NewFill ndat ndim nvar nfex code varm sel hetero rank =>
+      (fill_script ndat ndim nvar nfex code varm sel hetero rank, init)
+  | NewGrid nx dx x0 bycol tab names locs rank coords =>
+      (grid_script nx dx x0 bycol tab names locs rank coords, reset_dims (grid_dims nx tab rank coords) (grid_nech nx))
+  | SubGrid nx dx x0 lims coords =>
+      let nxo := map (fun l => snd l - fst l) lims in
+      (subgrid_script s nx dx x0 lims coords, reset_dims (grid_dims nxo [] true coords) (grid_nech nxo))
+  end.
+Definition cmd_grid (g : bool) (c : cmd) : bool :=
+  match c with Do _ => g | NewGrid _ _ _ _ _ _ _ _ _ | SubGrid _ _ _ _ _ => true | _ => false end.
+Definition exec (g : gstate) (c : cmd) : gstate :=
+  match c with
+  | Do o => (fst g, stepg (fst g) (snd g) o)
+  | SubGrid _ _ _ _ _ =>
+      if fst g then let (sc, s0) := cmd_script (snd g) c in (true, run_script sc s0) else g
+  | _ => let (sc, s0) := cmd_script (snd g) c in (cmd_grid (fst g) c, run_script sc s0)
+  end.
 
 (* ------------------------------------------------------------------ getters = observations *)
 (* getLocatorByColIdx Db.cpp:372: first (type, rank) whose uid maps to the column *)
@@ -583,6 +929,15 @@ Definition active_number (s : state) : nat :=
   | _ => length (filter (is_active s) (seq 0 (nech s)))
   end.
 
+(* getColumnByColIdx(icol, useSel = true, flagCompress) Db.cpp:3633: a sample is kept when its selection value is 1 *)
+Definition column_sel (s : state) (c : nat) (compress : bool) : list val :=
+  if c <? ncol s then
+    let sel := selections s in
+    flat_map (fun e => let defined := match sel with [] => true | _ => is_one (nth e sel None) end in
+                       if defined then [nth e (nth c (arr s) []) None] else if compress then [] else [None])
+             (seq 0 (nech s))
+  else [].
+
 Record obs := mkObs {
   o_ncol : nat;                         (* getColumnNumber *)
   o_nech : nat;                         (* getSampleNumber(false) *)
@@ -599,7 +954,9 @@ Record obs := mkObs {
   o_cols_name : list (list val);        (* getColumn(name of c) *)
   o_cols_loc : list (list val);         (* getColumnByLocator(locator of c), [] when c has none *)
   o_name2col : list Z;                  (* getColIdx(name of c) *)
-  o_name2uid : list Z                   (* getUID(name of c) *)
+  o_name2uid : list Z;                  (* getUID(name of c) *)
+  o_cols_sel : list (list val);         (* getColumnByColIdx(c, useSel = true, flagCompress = false) *)
+  o_cols_selc : list (list val)         (* getColumnByColIdx(c, useSel = true, flagCompress = true) *)
 }.
 Definition observe (s : state) : obs :=
   let cs := seq 0 (ncol s) in
@@ -618,6 +975,8 @@ Definition observe (s : state) : obs :=
     (map (fun c => column_of_name s (nth c (names s) [])) cs)
     (map (fun c => match loc_of_col s c with Some (t, k) => column_of_loc s t k | None => [] end) cs)
     (map (fun c => oz (colidx_of_name s (nth c (names s) []))) cs)
-    (map (fun c => oz (uid_of_name s (nth c (names s) []))) cs).
+    (map (fun c => oz (uid_of_name s (nth c (names s) []))) cs)
+    (map (fun c => column_sel s c false) cs)
+    (map (fun c => column_sel s c true) cs).
 
 Definition step_obs (s : state) (o : op) : state * obs := (step s o, observe (step s o)).
